@@ -312,8 +312,14 @@ def write_ctables():
     """C19: regenerate lean/Generated/CTables.lean from the four `.pyx` back ends
     (line-structured reader in harness/cpyx.py).  Returns (sha256, changed, data)."""
     import cpyx
-    data = cpyx.extract_all(REPO)
-    text = cpyx.lean_ctables(data)
+    try:
+        data = cpyx.extract_all(REPO)
+        text = cpyx.lean_ctables(data)
+    except Exception as e:  # noqa: BLE001
+        # the reader itself failed: empty tables make every C19 obligation fail (never a stale
+        # pass) without disturbing the tables of the other properties
+        data = dict(error=repr(e))
+        text = cpyx.lean_ctables_stub(repr(e))
     os.makedirs(os.path.dirname(COUT), exist_ok=True)
     old = open(COUT).read() if os.path.exists(COUT) else None
     if old != text:
